@@ -45,9 +45,8 @@ def main():
         return 0 if bad == 0 else 1
     finally:
         sh(["git", "-C", REPO, "worktree", "remove", "--force", wt]); shutil.rmtree(wt, ignore_errors=True)
-        for x in os.listdir(os.path.join(ROOT, ".build")):
-            if x.startswith("alt-"):
-                shutil.rmtree(os.path.join(ROOT, ".build", x), ignore_errors=True)
+        import hashlib  # only this run's build directory (other runs may be in progress)
+        shutil.rmtree(os.path.join(ROOT, ".build", "alt-" + hashlib.sha1(wt.encode()).hexdigest()[:10]), ignore_errors=True)
 
 if __name__ == "__main__":
     sys.exit(main())
